@@ -1,4 +1,6 @@
 import Gallia.Proofs.Lemmas.UdsMatch
+import Gallia.Proofs.Lemmas.ClientMatch
+import Gallia.Model.UdsHelpers
 import Gallia.Gen.C03Tables
 /-
   C03 — genuine replies are always accepted, foreign or stale replies always refused.
@@ -255,5 +257,476 @@ example : (Req.rdbi [0xF190]).WF := by decide
 example : parsePdu [0x7F, 0x22, 0xAA] (.rdbi [0xF190]) = .malformed := by decide
 example : parsePdu [0x50, 0x01] (.raw [0x10, 0x81]) = .accepted (.dsc 0x01 []) := by decide
 example : parsePdu [0x50, 0x02] (.dsc 1 true) = .mismatch := by decide
+
+
+/-! ## where the client applies the matcher: C03 composed with the C04 request loop
+
+  `ClientMatch.request c r w` (Model/ClientMatch.lean) is `UDSClient.request(r, config)` in a byte-level world `w`: every
+  frame read — the first reply of every attempt and every frame of the ResponsePending loop — is classified by `parsePdu`
+  (`classifyRead`), the C04 loop (`ClientIO.runX`) runs on the classified script.  All theorems hold for every
+  configuration (any max_retry, timeouts, latency, limits), every well-formed request and every world (infinite streams of
+  write results, read results — bytes, timeouts, connection errors — and reconnect results). -/
+
+section Client
+open Gallia.Client Gallia.ClientIO Gallia.ClientMatch
+
+/-- (T) the client hands every frame it reads to `parse_pdu(raw_resp, request)`: `resp` is only ever bound by that call,
+    once after the first read of an attempt and once inside the ResponsePending loop, whose body has the modelled shape;
+    `parse_pdu` binds `trigger_request` immediately before returning (regenerated from the AST on every run) -/
+theorem client_applies_matcher_to_every_frame :
+    Gen.C03Tables.respAssignments = [("parse_pdu(raw_resp, request)", false), ("parse_pdu(raw_resp, request)", true)] ∧
+    Gen.C03Tables.rawAssignments = [("await self.transport.request_unsafe(request.pdu, timeout, config.tags)", false),
+                                    ("await self._read(timeout=waiting_time, tags=config.tags)", true)] ∧
+    Gen.C03Tables.pendingLoopBody = ["Expr", "Try", "Assign:resp", "Assign:n_timeout", "AugAssign:n_pending", "If"] ∧
+    Gen.C03Tables.pendingLoopTest = "isinstance(resp, service.NegativeResponse) and resp.response_code == UDSErrorCodes.requestCorrectlyReceivedResponsePending" ∧
+    Gen.C03Tables.parsePduTail = ["response.trigger_request = request", "return response"] := by
+  refine ⟨?_, ?_, ?_, ?_, ?_⟩ <;> decide
+
+/-- the event of the C04 alphabet a frame is, in the vocabulary of the property: foreign = mismatch, undecodable =
+    malformed, genuine = one of busy / pending / final negative / final positive -/
+theorem classifyRead_spec (r : Req) (hwf : r.WF) (hr : encode r ≠ []) (b : Bytes) (hb : b ≠ []) :
+    (Foreign r b ↔ classifyRead r b = .mismatch) ∧ (UndecodableSameService r b ↔ classifyRead r b = .malformed) ∧
+    (Genuine r b ↔ (classifyRead r b = .busy ∨ classifyRead r b = .pending ∨ classifyRead r b = .negFinal ∨
+                    classifyRead r b = .posFinal)) := by
+  rw [classifyRead_cons r b hb]
+  rcases trichotomy r hwf hr b hb with ⟨h1, h2, h3, x, hx⟩ | ⟨h1, h2, h3, hx⟩ | ⟨h1, h2, h3, hx⟩
+  · rw [hx]; simp only []
+    rcases classifyResp_cases x with ⟨h, _⟩ | ⟨h, _⟩ | ⟨h, _⟩ | ⟨h, _⟩ <;> simp [h, h1, h2, h3]
+  · rw [hx]; simp [h1, h2, h3]
+  · rw [hx]; simp [h1, h2, h3]
+
+/-- a negative response is `7F sid nrc` -/
+theorem dec_neg3 {s n : UInt8} {x : Resp} (h : decodeResp [0x7F, s, n] = .ok x) : x = .neg s n := by
+  have hb := enc_of_dec h
+  have hn : isNeg x = true := by
+    cases hx : isNeg x with
+    | true => rfl
+    | false => have := (dec_head _ x h).2 hx; simp [isNegative] at this
+  cases x <;> simp [isNeg] at hn
+  simp [encodeResp] at hb
+  obtain ⟨h1, h2⟩ := hb
+  subst h1; subst h2; rfl
+
+/-- **only the request's own ResponsePending prolongs waiting**: a frame is counted as a keep-alive exactly when it is
+    `7F <the request's service id> 78` -/
+theorem only_own_pending_prolongs (r : Req) (hwf : r.WF) (s : UInt8) (hs : Reply.reqSid r = some s) (b : Bytes) :
+    classifyRead r b = .pending ↔ b = [0x7F, s, 0x78] := by
+  have hr : encode r ≠ [] := by
+    intro h; simp [Reply.reqSid, h] at hs
+  constructor
+  · intro h
+    have hb : b ≠ [] := by rintro rfl; simp [classifyRead] at h
+    have hG : Genuine r b := ((classifyRead_spec r hwf hr b hb).2.2).mpr (.inr (.inl h))
+    rw [classifyRead_cons r b hb] at h
+    cases hp : parsePdu b r with
+    | mismatch => rw [hp] at h; cases h
+    | malformed => rw [hp] at h; cases h
+    | accepted x =>
+      rw [hp] at h; simp only [] at h
+      rcases classifyResp_cases x with ⟨h', _⟩ | ⟨_, sid, hx⟩ | ⟨h', _⟩ | ⟨h', _⟩
+      · rw [h'] at h; cases h
+      · subst hx
+        have hb3 := (accepted_negative_has_exception r b sid 0x78 hp).1
+        subst hb3
+        unfold Genuine genuineB at hG
+        rw [hs] at hG
+        simp [isNegative, positiveOf] at hG
+        rw [hG.2]
+      · rw [h'] at h; cases h
+      · rw [h'] at h; cases h
+  · rintro rfl
+    have hG : Genuine r [0x7F, s, 0x78] := (genuine_negative_iff r s 0x78 hs).mpr (by decide)
+    obtain ⟨x, hd, hp⟩ := genuine_accepted r hwf _ hG
+    have := dec_neg3 hd
+    subst this
+    rw [classifyRead_cons r _ (by simp), hp]
+    rfl
+
+/-- a negative response naming another service is a mismatch whatever its response code — also `78` and `21` -/
+theorem foreign_negative_is_mismatch (r : Req) (hwf : r.WF) (s : UInt8) (hs : Reply.reqSid r = some s) (n : UInt8)
+    (hn : n ≠ s) (rest : Bytes) : Foreign r (0x7F :: n :: rest) ∧ classifyRead r (0x7F :: n :: rest) = .mismatch := by
+  have hF : Foreign r (0x7F :: n :: rest) := by
+    unfold Foreign foreignB; rw [hs]; simp [isNegative, hn]
+  refine ⟨hF, ?_⟩
+  rw [classifyRead_cons r _ (by simp), foreign_refused r hwf _ hF]
+
+/-- what the loop ends with names a read whose frame fits: never `internal` -/
+theorem request_never_internal (c : CfgX) (r : Req) (w : World) : request c r w ≠ .internal := by
+  unfold request
+  have hev := runX_event c (w.script r)
+  have ho : (requestX c (w.script r)).out = (runX c (w.script r)).out := rfl
+  rw [ho]
+  cases hout : (runX c (w.script r)).out with
+  | reconnectFailed m e => simp [resultOf]
+  | base o =>
+    cases o with
+    | missing _ => simp [resultOf]
+    | stuck => simp [resultOf]
+    | connEscaped _ => simp [resultOf]
+    | reply k =>
+      have h := hev.1 k hout
+      simp only [World.script, resultOf] at h ⊢
+      cases hrd : w.rd k with
+      | timeout => rw [hrd] at h; simp [classifyRd, Ev.final] at h
+      | connErr => rw [hrd] at h; simp [classifyRd, Ev.final] at h
+      | data b =>
+        rw [hrd] at h; simp only [classifyRd] at h
+        cases b with
+        | nil => simp [classifyRead, Ev.final] at h
+        | cons a t =>
+          rw [classifyRead_cons r _ (by simp)] at h
+          unfold parsePduBound
+          cases hp : parsePdu (a :: t) r with
+          | accepted x => simp [hp]
+          | mismatch => rw [hp] at h; simp [Ev.final] at h
+          | malformed => rw [hp] at h; simp [Ev.final] at h
+    | illegal k =>
+      have h := hev.2 k hout
+      simp only [World.script, resultOf] at h ⊢
+      cases hrd : w.rd k with
+      | timeout => rw [hrd] at h; simp [classifyRd, Ev.illegal] at h
+      | connErr => rw [hrd] at h; simp [classifyRd, Ev.illegal] at h
+      | data b =>
+        rw [hrd] at h; simp only [classifyRd] at h
+        cases b with
+        | nil => simp [classifyRead, Ev.illegal] at h
+        | cons a t =>
+          rw [classifyRead_cons r _ (by simp)] at h
+          unfold parsePduBound
+          cases hp : parsePdu (a :: t) r with
+          | accepted x => rw [hp] at h; simp [(classifyResp_not_illegal x).1] at h
+          | mismatch => simp [hp]
+          | malformed => simp [hp]
+
+/-- **stale or foreign replies never become results**: whatever `request()` returns is the decoded form of the frame
+    of its last read, that frame is `Genuine` for the request — not `Foreign`, not undecodable — and the returned
+    response carries the request it answered as `trigger_request` -/
+theorem stale_never_returned (c : CfgX) (r : Req) (hwf : r.WF) (hr : encode r ≠ []) (w : World) (k : Nat) (x : Resp)
+    (q : Req) (h : request c r w = .returned k x q) :
+    ∃ b, w.rd k = .data b ∧ Genuine r b ∧ ¬ Foreign r b ∧ ¬ UndecodableSameService r b ∧ decodeResp b = .ok x ∧
+      q = r ∧ reads c r w = k + 1 := by
+  unfold request at h
+  have ho : (requestX c (w.script r)).out = (runX c (w.script r)).out := rfl
+  rw [ho] at h
+  cases hout : (runX c (w.script r)).out with
+  | reconnectFailed m e => rw [hout] at h; simp [resultOf] at h
+  | base o =>
+    rw [hout] at h
+    cases o with
+    | missing _ => simp [resultOf] at h
+    | stuck => simp [resultOf] at h
+    | connEscaped _ => simp [resultOf] at h
+    | illegal k' =>
+      simp only [resultOf] at h
+      cases hrd : w.rd k' with
+      | timeout => rw [hrd] at h; cases h
+      | connErr => rw [hrd] at h; cases h
+      | data b =>
+        rw [hrd] at h; simp only [parsePduBound] at h
+        cases hp : parsePdu b r <;> rw [hp] at h <;> cases h
+    | reply k' =>
+      simp only [resultOf] at h
+      cases hrd : w.rd k' with
+      | timeout => rw [hrd] at h; cases h
+      | connErr => rw [hrd] at h; cases h
+      | data b =>
+        rw [hrd] at h; simp only [parsePduBound] at h
+        cases hp : parsePdu b r with
+        | mismatch => rw [hp] at h; cases h
+        | malformed => rw [hp] at h; cases h
+        | accepted y =>
+          rw [hp] at h
+          simp only [Result.returned.injEq] at h
+          obtain ⟨hk, hy, hq⟩ := h
+          subst hk; subst hy
+          have hb : b ≠ [] := by rintro rfl; simp [parsePdu] at hp
+          have hG := (outcome_sound r hwf hr b hb).1 y hp
+          rcases trichotomy r hwf hr b hb with ⟨_, h2, h3, _⟩ | ⟨h1, _⟩ | ⟨h1, _⟩
+          · exact ⟨b, hrd, hG, h2, h3, accepted_decoded hp, hq.symm, runX_reply_last c _ k' (.inl hout)⟩
+          · exact absurd hG h1
+          · exact absurd hG h1
+
+/-- **every foreign frame ends the request where it is read**: a `Foreign` frame delivered by any read of the request —
+    the first reply of any attempt or a frame of the ResponsePending loop — ends `request()` with
+    RequestResponseMismatch for that very read; nothing is read after it -/
+theorem foreign_frame_ends_request (c : CfgX) (r : Req) (hwf : r.WF) (w : World) (j : Nat) (b : Bytes)
+    (hj : j < reads c r w) (hb : w.rd j = .data b) (hf : Foreign r b) :
+    request c r w = .refused j .mismatch ∧ reads c r w = j + 1 := by
+  have hp := foreign_refused r hwf b hf
+  have hne : b ≠ [] := by rintro rfl; simp [parsePdu] at hp
+  have hev : (w.script r).rd j = .mismatch := by
+    simp only [World.script, hb, classifyRd]; rw [classifyRead_cons r b hne, hp]
+  have hout := (runX_first c (w.script r) j hj).2 (by rw [hev]; rfl)
+  refine ⟨?_, runX_reply_last c _ j (.inr hout)⟩
+  unfold request
+  have ho : (requestX c (w.script r)).out = (runX c (w.script r)).out := rfl
+  rw [ho, hout]
+  simp [resultOf, hb, parsePduBound, hp]
+
+/-- an undecodable frame of the right service ends the request with MalformedResponse for that read -/
+theorem undecodable_frame_ends_request (c : CfgX) (r : Req) (hwf : r.WF) (w : World) (j : Nat) (b : Bytes)
+    (hj : j < reads c r w) (hb : w.rd j = .data b) (hu : UndecodableSameService r b) :
+    request c r w = .refused j .malformed ∧ reads c r w = j + 1 := by
+  have hp := undecodable_malformed r hwf b hu
+  have hne : b ≠ [] := by
+    rintro rfl
+    obtain ⟨s, hs⟩ := reqSid_some (Or.inr (Or.inr hu))
+    unfold UndecodableSameService undecodableB at hu; rw [hs] at hu; simp [isNegative, positiveOf] at hu
+  have hev : (w.script r).rd j = .malformed := by
+    simp only [World.script, hb, classifyRd]; rw [classifyRead_cons r b hne, hp]
+  have hout := (runX_first c (w.script r) j hj).2 (by rw [hev]; rfl)
+  refine ⟨?_, runX_reply_last c _ j (.inr hout)⟩
+  unfold request
+  have ho : (requestX c (w.script r)).out = (runX c (w.script r)).out := rfl
+  rw [ho, hout]
+  simp [resultOf, hb, parsePduBound, hp]
+
+/-- **a foreign ResponsePending is not a keep-alive**: `7F xx 78` (or `7F xx 21`, or any other code) naming another
+    service, read anywhere in the request — in particular inside the ResponsePending loop — is not counted as pending /
+    busy but ends the request with RequestResponseMismatch at that read -/
+theorem pending_loop_refuses_foreign (c : CfgX) (r : Req) (hwf : r.WF) (s : UInt8) (hs : Reply.reqSid r = some s)
+    (w : World) (j : Nat) (n nrc : UInt8) (hn : n ≠ s) (hj : j < reads c r w) (hb : w.rd j = .data [0x7F, n, nrc]) :
+    classifyRead r [0x7F, n, nrc] ≠ .pending ∧ classifyRead r [0x7F, n, nrc] ≠ .busy ∧
+    request c r w = .refused j .mismatch ∧ reads c r w = j + 1 := by
+  obtain ⟨hF, hc⟩ := foreign_negative_is_mismatch r hwf s hs n hn [nrc]
+  refine ⟨by rw [hc]; simp, by rw [hc]; simp, foreign_frame_ends_request c r hwf w j _ hj hb hF⟩
+
+/-- **a genuine final reply is never dropped**: a `Genuine` frame that is not the request's own busyRepeatRequest /
+    ResponsePending, delivered by any read of the request, is what `request()` returns — decoded, bound to the request -/
+theorem genuine_final_returned (c : CfgX) (r : Req) (hwf : r.WF) (w : World) (j : Nat) (b : Bytes)
+    (hj : j < reads c r w) (hb : w.rd j = .data b) (hg : Genuine r b)
+    (hfin : ∀ s, b ≠ [0x7F, s, 0x21] ∧ b ≠ [0x7F, s, 0x78]) :
+    ∃ x, decodeResp b = .ok x ∧ request c r w = .returned j x r := by
+  obtain ⟨x, hd, hp⟩ := genuine_accepted r hwf b hg
+  have hne : b ≠ [] := by rintro rfl; simp [parsePdu] at hp
+  have hbx := enc_of_dec hd
+  have hev : ((w.script r).rd j).final = true := by
+    simp only [World.script, hb, classifyRd]; rw [classifyRead_cons r b hne, hp]
+    simp only []
+    rcases classifyResp_cases x with ⟨_, sid, hx⟩ | ⟨_, sid, hx⟩ | ⟨h', _⟩ | ⟨h', _⟩
+    · subst hx; exact absurd hbx.symm (hfin sid).1
+    · subst hx; exact absurd hbx.symm (hfin sid).2
+    · rw [h']; rfl
+    · rw [h']; rfl
+  have hout := (runX_first c (w.script r) j hj).1 hev
+  refine ⟨x, hd, ?_⟩
+  unfold request
+  have ho : (requestX c (w.script r)).out = (runX c (w.script r)).out := rfl
+  rw [ho, hout]
+  simp [resultOf, hb, parsePduBound, hp]
+
+/-! ### the hypotheses are satisfiable: concrete worlds -/
+
+
+macro "client_eval" : tactic => `(tactic| simp [request, reads, requestX, resultOf, runX, attemptsX, attemptStepX, faultX, pendingLoop,
+  exCfg, maxNT, preX, consOp, waitX, tmoDur, liftPend, readTmo, CfgX.base, ResX.reads, World.script, World.ofFrames, nReadsX,
+  OpX.isRd, parsePduBound, ex_own_pending, ex_foreign_pending, ex_genuine])
+
+-- `foreign_frame_ends_request` / `pending_loop_refuses_foreign`: read 1 of 2 is a foreign ResponsePending inside the pending loop
+example : (1 : Nat) < reads (exCfg 0) exReq (World.ofFrames [[0x7F, 0x10, 0x78], [0x7F, 0x22, 0x78]]) ∧
+    Foreign exReq [0x7F, 0x22, 0x78] ∧ exReq.WF ∧ Reply.reqSid exReq = some 0x10 := by
+  refine ⟨?_, by decide, by decide, by decide⟩
+  client_eval
+  decide
+example : request (exCfg 0) exReq (World.ofFrames [[0x7F, 0x10, 0x78], [0x7F, 0x22, 0x78]]) = .refused 1 .mismatch := by
+  client_eval
+  decide
+-- `stale_never_returned` / `genuine_final_returned`: the genuine reply after the request's own ResponsePending is returned, bound
+example : request (exCfg 0) exReq (World.ofFrames [[0x7F, 0x10, 0x78], [0x50, 0x03, 0x00, 0x32]]) =
+    .returned 1 (.dsc 3 [0x00, 0x32]) exReq := by
+  client_eval
+  decide
+example : Genuine exReq [0x50, 0x03, 0x00, 0x32] ∧ ∀ s, [0x50, 0x03, 0x00, 0x32] ≠ [0x7F, s, 0x21] ∧ [0x50, 0x03, 0x00, 0x32] ≠ [0x7F, s, (0x78 : UInt8)] :=
+  ⟨by decide, fun s => ⟨by simp, by simp⟩⟩
+example : UndecodableSameService exReq [0x7F, 0x10, 0xAA] := by decide
+
+end Client
+
+/-! ## the classification helpers of `services/uds/helpers.py` -/
+
+section Helpers
+open Gallia.UdsHelpers
+
+/-- (T) the code lists of the three `suggests_*` helpers are the ones regenerated from the AST of helpers.py, and the
+    bodies of `_suggests_not_supported`, `raise_for_error`, `raise_for_mismatch` are the modelled ones -/
+theorem suggests_lists_agree :
+    Gen.C03Tables.suggestsService = serviceCodes ∧ Gen.C03Tables.suggestsSubFunction = subFunctionCodes ∧
+    Gen.C03Tables.suggestsIdentifier = identifierCodes := by decide
+
+theorem helper_bodies_agree :
+    Gen.C03Tables.suggestsNotSupportedBody =
+      ["if isinstance(response, service.UDSResponse):\n    if not isinstance(response, service.NegativeResponse):\n        return False\n    response_code = response.response_code\nelse:\n    response_code = response",
+       "return response_code in not_supported_codes"] ∧
+    Gen.C03Tables.raiseForErrorBody =
+      ["if isinstance(response, service.NegativeResponse):\n    if response.trigger_request is None:\n        raise ValueError('The response has not been assigned a trigger request')\n    raise UnexpectedNegativeResponse.parse_dynamic(response.trigger_request, response, message)"] ∧
+    Gen.C03Tables.raiseForMismatchBody =
+      ["if not response.matches(request):\n    raise RequestResponseMismatch(request, response, message)"] :=
+  ⟨rfl, rfl, rfl⟩
+
+/-- every code a `suggests_*` helper looks for is a member of the regenerated `UDSErrorCodes` -/
+theorem suggests_subset_nrc :
+    (∀ c ∈ serviceCodes, c ∈ Gen.C03Tables.errorCodes) ∧ (∀ c ∈ subFunctionCodes, c ∈ Gen.C03Tables.errorCodes) ∧
+    (∀ c ∈ identifierCodes, c ∈ Gen.C03Tables.errorCodes) := by decide
+
+/-- the three sets are nested, and differ by exactly the documented codes: sub-function adds subFunctionNotSupported
+    (0x12) and subFunctionNotSupportedInActiveSession (0x7E), identifier adds requestOutOfRange (0x31) -/
+theorem suggests_partition :
+    (∀ c, c ∈ serviceCodes → c ∈ subFunctionCodes) ∧ (∀ c, c ∈ subFunctionCodes → c ∈ identifierCodes) ∧
+    subFunctionCodes.filter (fun c => !serviceCodes.contains c) = [0x12, 0x7E] ∧
+    identifierCodes.filter (fun c => !subFunctionCodes.contains c) = [0x31] ∧
+    serviceCodes = [0x11, 0x7F] ∧ serviceCodes.Nodup ∧ subFunctionCodes.Nodup ∧ identifierCodes.Nodup := by
+  refine ⟨?_, ?_, ?_, ?_, ?_, ?_, ?_, ?_⟩ <;> simp [serviceCodes, subFunctionCodes, identifierCodes] <;> omega
+
+/-- a helper answers yes exactly for a negative response (or bare code) whose code is in its list — never for a positive
+    response -/
+theorem suggests_exact (codes : List Nat) (a : Arg) :
+    suggests codes a = true ↔
+      (∃ sid nrc, a = .resp (.neg sid nrc) ∧ nrc.toNat ∈ codes) ∨ (∃ c, a = .code c ∧ c ∈ codes) := by
+  cases a with
+  | code c => simp [suggests]
+  | resp x =>
+    cases x <;> simp [suggests]
+    constructor
+    · intro h; exact ⟨_, _, ⟨rfl, rfl⟩, h⟩
+    · rintro ⟨_, _, ⟨rfl, rfl⟩, h⟩; exact h
+
+/-- service-not-supported implies sub-function-not-supported implies identifier-not-supported, for every argument -/
+theorem suggests_monotone (a : Arg) :
+    (suggestsService a = true → suggestsSubFunction a = true) ∧ (suggestsSubFunction a = true → suggestsIdentifier a = true) := by
+  have h := suggests_partition
+  unfold suggestsService suggestsSubFunction suggestsIdentifier
+  constructor <;> intro hs
+  · rcases (suggests_exact _ a).mp hs with ⟨sid, nrc, rfl, hm⟩ | ⟨c, rfl, hm⟩
+    · exact (suggests_exact _ _).mpr (.inl ⟨sid, nrc, rfl, h.1 _ hm⟩)
+    · exact (suggests_exact _ _).mpr (.inr ⟨c, rfl, h.1 _ hm⟩)
+  · rcases (suggests_exact _ a).mp hs with ⟨sid, nrc, rfl, hm⟩ | ⟨c, rfl, hm⟩
+    · exact (suggests_exact _ _).mpr (.inl ⟨sid, nrc, rfl, h.2.1 _ hm⟩)
+    · exact (suggests_exact _ _).mpr (.inr ⟨c, rfl, h.2.1 _ hm⟩)
+
+/-- on the reply a probe accepted: `suggests_service_not_supported` holds exactly for `7F sid 11` and `7F sid 7F` -/
+theorem suggests_service_on_accepted (r : Req) (b : Bytes) (x : Resp) (h : parsePdu b r = .accepted x) :
+    suggestsService (.resp x) = true ↔ ∃ sid, b = [0x7F, sid, 0x11] ∨ b = [0x7F, sid, 0x7F] := by
+  have hb := enc_of_dec (accepted_decoded h)
+  constructor
+  · intro hs
+    rcases (suggests_exact _ _).mp hs with ⟨sid, nrc, hx, hm⟩ | ⟨c, hx, _⟩
+    · injection hx with hx; subst hx
+      refine ⟨sid, ?_⟩
+      simp [serviceCodes] at hm
+      rcases hm with hm | hm
+      · left; rw [← hb]; simp [encodeResp]; exact UInt8.toNat_inj.mp (by simpa using hm)
+      · right; rw [← hb]; simp [encodeResp]; exact UInt8.toNat_inj.mp (by simpa using hm)
+    · cases hx
+  · rintro ⟨sid, hh | hh⟩ <;> subst hh
+    · have := dec_neg3 (accepted_decoded h); subst this; simp [suggestsService, suggests, serviceCodes]
+    · have := dec_neg3 (accepted_decoded h); subst this; simp [suggestsService, suggests, serviceCodes]
+
+/-- keys of the regenerated exception map are distinct -/
+theorem exception_keys_nodup : (Gen.C03Tables.exceptionTable.map (·.1)).Nodup := by decide
+
+/-- **`raise_for_error` raises exactly for negative replies, with the exception class registered for the received code**:
+    for a response with a trigger request it returns iff the response is positive; for a negative response `7F sid nrc`
+    with a listed code it raises the class the regenerated map registers under `nrc`, whose RESPONSE_CODE is `nrc`
+    (never KeyError); without a trigger request it raises ValueError -/
+theorem raise_for_error_exact (q : Req) (x : Resp) :
+    (raiseForError Gen.C03Tables.exceptionTable (some q) x = .returns ↔ isNeg x = false) ∧
+    (∀ sid nrc, x = .neg sid nrc → raiseForError Gen.C03Tables.exceptionTable none x = .valueError) ∧
+    (∀ sid nrc, x = .neg sid nrc → nrc.toNat ∈ nrcTable →
+      ∃ cls, raiseForError Gen.C03Tables.exceptionTable (some q) x = .raises cls nrc.toNat ∧
+             (nrc.toNat, cls, nrc.toNat) ∈ Gen.C03Tables.exceptionTable) ∧
+    (∀ cls code, raiseForError Gen.C03Tables.exceptionTable (some q) x = .raises cls code →
+      ∃ sid nrc, x = .neg sid nrc ∧ code = nrc.toNat ∧ (nrc.toNat, cls, code) ∈ Gen.C03Tables.exceptionTable) := by
+  have hfind : ∀ n : Nat, ∀ e, Gen.C03Tables.exceptionTable.find? (fun e => e.1 == n) = some e →
+      e ∈ Gen.C03Tables.exceptionTable ∧ e.1 = n := by
+    intro n e he
+    exact ⟨List.mem_of_find?_eq_some he, by simpa using List.find?_some he⟩
+  refine ⟨?_, ?_, ?_, ?_⟩
+  · cases x <;> simp [raiseForError, isNeg]
+    split <;> simp
+  · rintro sid nrc rfl; rfl
+  · rintro sid nrc rfl hm
+    rw [← errorCodes_agree] at hm
+    have hk := exception_total _ hm
+    simp only [raiseForError]
+    cases hf : Gen.C03Tables.exceptionTable.find? (fun e => e.1 == nrc.toNat) with
+    | none =>
+      rw [List.find?_eq_none] at hf
+      simp only [List.mem_map] at hk
+      obtain ⟨e, he, hke⟩ := hk
+      exact absurd (by simpa using hke) (hf e he)
+    | some e =>
+      obtain ⟨hmem, hkey⟩ := hfind _ e hf
+      have hc := exception_keys_consistent e hmem
+      refine ⟨e.2.1, ?_, ?_⟩
+      · simp only []; rw [← hc, hkey]
+      · have : e = (nrc.toNat, e.2.1, nrc.toNat) := by
+          rcases e with ⟨a, n, c⟩; simp at hkey hc ⊢; omega
+        rw [← this]; exact hmem
+  · intro cls code h
+    cases x <;> simp [raiseForError] at h
+    rename_i sid nrc
+    cases hf : Gen.C03Tables.exceptionTable.find? (fun e => e.1 == nrc.toNat) with
+    | none => rw [hf] at h; cases h
+    | some e =>
+      rw [hf] at h
+      simp only [Raise.raises.injEq] at h
+      obtain ⟨hmem, hkey⟩ := hfind _ e hf
+      have hc := exception_keys_consistent e hmem
+      refine ⟨sid, nrc, rfl, ?_, ?_⟩
+      · rw [← h.2, ← hc, hkey]
+      · have : e = (nrc.toNat, cls, code) := by
+          rcases e with ⟨a, n, c⟩; simp at hkey h ⊢; exact ⟨hkey, h.1, h.2⟩
+        rw [← this]; exact hmem
+
+/-- on the reply a probe accepted `raise_for_error` never fails with KeyError or ValueError: it returns for a positive
+    reply and raises the class of the received code for `7F sid nrc` -/
+theorem raise_for_error_on_accepted (r : Req) (b : Bytes) (x : Resp) (h : parsePdu b r = .accepted x) :
+    (isNeg x = false ∧ raiseForError Gen.C03Tables.exceptionTable (some r) x = .returns) ∨
+    (∃ sid nrc cls, b = [0x7F, sid, nrc] ∧ raiseForError Gen.C03Tables.exceptionTable (some r) x = .raises cls nrc.toNat ∧
+       (nrc.toNat, cls, nrc.toNat) ∈ Gen.C03Tables.exceptionTable) := by
+  cases hn : isNeg x with
+  | false => exact .inl ⟨rfl, (raise_for_error_exact r x).1.mpr hn⟩
+  | true =>
+    right
+    cases x <;> simp [isNeg] at hn
+    rename_i sid nrc
+    have hd := accepted_decoded h
+    have hwf : nrc.toNat ∈ nrcTable := pNeg_wf (decodeResp_parse hd rfl)
+    obtain ⟨cls, h1, h2⟩ := (raise_for_error_exact r (.neg sid nrc)).2.2.1 sid nrc rfl hwf
+    exact ⟨sid, nrc, cls, (enc_of_dec hd).symm, h1, h2⟩
+
+/-- `raise_for_mismatch` raises exactly when `matches` refuses; on what `parse_pdu` accepted for a typed request it does not -/
+theorem raise_for_mismatch_on_accepted (r : Req) (b : Bytes) (x : Resp) (hraw : (decode (encode r)).isRaw = false)
+    (h : parsePdu b r = .accepted x) : raisesForMismatch (decode (encode r)) x = false := by
+  unfold parsePdu at h
+  cases b with
+  | nil => simp at h
+  | cons b0 bt =>
+    cases he : encode r with
+    | nil => rw [he] at h; simp at h
+    | cons s st =>
+      rw [he] at h
+      simp only [] at h
+      cases hd : decodeResp (b0 :: bt) with
+      | error e =>
+        rw [hd] at h; simp only [] at h
+        repeat' split at h
+        all_goals cases h
+      | ok y =>
+        rw [hd] at h
+        rw [← he] at h
+        simp only [hraw, Bool.false_and] at h
+        by_cases hm : «matches» y (decode (encode r)) = true
+        · simp [hm] at h; subst h; rw [← he]; simp [raisesForMismatch, hm]
+        · simp [hm] at h
+
+-- the helper theorems are about inhabited cases
+example : suggestsService (.resp (.neg 0x22 0x11)) = true ∧ suggestsService (.resp (.neg 0x22 0x12)) = false ∧
+    suggestsSubFunction (.resp (.neg 0x22 0x12)) = true ∧ suggestsIdentifier (.code 0x31) = true ∧
+    suggestsSubFunction (.code 0x31) = false ∧ suggestsIdentifier (.resp .testerPresent) = false := by decide
+example : raiseForError Gen.C03Tables.exceptionTable (some (.rdbi [0xF190])) (.neg 0x22 0x31) = .raises "RequestOutOfRange" 0x31 := by decide
+example : raiseForError Gen.C03Tables.exceptionTable (some (.rdbi [0xF190])) (.rdbi 0xF190 [1]) = .returns := by decide
+
+end Helpers
 
 end Gallia.C03
